@@ -717,7 +717,9 @@ fn injected_at_clock_read() {
                 x.busy = true;
                 let v = 20 + x.rng.below(12);
                 let d = [1000u64, 600_000_000][x.rng.below(2) as usize];
-                Some((x.cache.clone(), x.clock.clone(), k, v, 100, d))
+                // variant 100: a later update; 101: a completed invalidate_all, then a later update
+                let variant = 100 + x.rng.below(2);
+                Some((x.cache.clone(), x.clock.clone(), k, v, variant, d))
             }
             Some(x) if x.in_invall && !x.busy => {
                 if x.rng.below(2) != 0 {
@@ -733,13 +735,19 @@ fn injected_at_clock_read() {
             _ => None,
         }
     });
-    if let Some((c, clock, k, v, 100, d)) = act {
+    if let Some((c, clock, k, v, variant @ 100..=101, d)) = act {
         // Another logical thread updates the key of the scripted insert at a LATER clock reading,
         // and its map write lands first. The scripted insert then writes its value with its own,
         // older reading; it is linearised at its map step (its line follows these), and the note
         // `#rd k t` tells the reading it carries (model T, `ConcT.lean`).
         let t1 = clock.now_ns();
         let mut lines = Vec::new();
+        if variant == 101 {
+            clock.advance(dur(d as u128));
+            lines.push(format!("adv {} -> ok", d));
+            c.invalidate_all();
+            lines.push("invall -> ok".to_string());
+        }
         clock.advance(dur(d as u128));
         lines.push(format!("adv {} -> ok", d));
         c.insert(VKey::new(k), VVal::new(v));
